@@ -13,6 +13,27 @@ Definition bounded (h : heap) (l : list nat) : Prop := forall o, In o l -> o < l
 (* every object the tracked state can reach exists *)
 Definition HeapInv (w : world) : Prop := bounded (w_heap w) (live_objs (w_heap w) (w_st w)).
 
+(* The strong invariant: every tracked object is well typed and within bounds (slices lie
+   inside their arrays, len <= cap, every user owns a permission map), and tracked objects
+   do not share memory among themselves. *)
+Definition wf_strs (h : heap) (s : hslice) : Prop :=
+  exists a, hget h (sl_arr s) = Some (CStrs a) /\ sl_off s + sl_cap s <= length a /\ sl_len s <= sl_cap s.
+Definition wf_modes (h : heap) (s : hslice) : Prop :=
+  exists a, hget h (sl_arr s) = Some (CModes a) /\ sl_off s + sl_cap s <= length a /\ sl_len s <= sl_cap s.
+Definition wf_user (h : heap) (o : nat) : Prop :=
+  exists u, hget h o = Some (CUser u) /\ wf_strs h (hu_chans u) /\
+            exists p m, hu_perms u = Some p /\ hget h p = Some (CPerms m).
+Definition wf_chan (h : heap) (o : nat) : Prop :=
+  exists c, hget h o = Some (CChan c) /\ wf_strs h (hc_users c) /\ wf_modes h (hm_modes (hc_modes c)).
+
+Record HeapWf (w : world) : Prop := {
+  wf_users : forall o, In o (List.map snd (hs_users (w_st w))) -> wf_user (w_heap w) o;
+  wf_chans : forall o, In o (List.map snd (hs_channels (w_st w))) -> wf_chan (w_heap w) o;
+  (* tracked objects do not share memory: an object is reachable from one root only *)
+  wf_sep : forall r1 r2 x, In r1 (roots (w_st w)) -> In r2 (roots (w_st w)) ->
+             In x (reach (w_heap w) r1) -> In x (reach (w_heap w) r2) -> r1 = r2
+}.
+
 (* The client holds the handles K (objects returned by getters, and whatever it built
    from them). The snapshots are isolated in world w when nothing the client can reach is
    reachable from the tracked state. *)
